@@ -310,8 +310,8 @@ func (r *RoundRobinSelection) Select(pool UpstreamPool, _ *layer4.Connection) *U
 		return nil
 	}
 	for i := uint32(0); i < n; i++ {
-		atomic.AddUint32(&r.robin, 1)
-		host := pool[r.robin%n]
+		robin := atomic.AddUint32(&r.robin, 1)
+		host := pool[robin%n]
 		if host.available() {
 			return host
 		}
